@@ -104,10 +104,11 @@ pub fn unicode(max: usize) -> impl Strategy<Value = String> {
   vec(mixed_char(), 0..=max).prop_map(|v| v.into_iter().collect())
 }
 
-const SPECIALS: [&str; 40] = [
+const SPECIALS: [&str; 44] = [
   "", ".", "..", "\0", "a.b", "=", "==", "é", "😀", " ", "\u{feff}", "v4.local.", "AAAA", "null", "{}", "\"", "\u{0}\u{0}", "\u{10ffff}",
   "\\", "\u{2028}", "\u{d7ff}", "\u{e000}", "\u{ffff}", "\u{fffd}", "%00", "\r\n", "\t", "a\u{301}", "\u{200b}", "\u{202e}abc", "true", "0", "-0", "1e400", "[]",
   "{\"a\":1}", "\u{7f}", "\u{80}", "\u{7ff}\u{800}", "\u{1}\u{1f}",
+  "\u{feff}{\"a\":1}", "\u{feff}abc", " {\"a\":1} ", "abc\n",
 ];
 
 pub fn special() -> impl Strategy<Value = String> {
